@@ -7,23 +7,24 @@ use crate::*;
 use serde_json::{json, Value};
 use sourcemap::{DecodedMap, SourceMap, SourceMapIndex};
 
-/// drive one boxed iterator of already-projected items through the session
-pub fn session<'a>(mut it: Box<dyn Iterator<Item = Value> + 'a>, cap: usize, steps: &[Value]) -> Value {
+/// drive ONE iterator through the session.  The iterator is used as it is (adaptors such as `map` do not forward
+/// `nth` / `size_hint` overrides to the iterator they wrap); items are projected only after they come out.
+pub fn session<I: Iterator>(mut it: I, proj: impl Fn(I::Item) -> Value, cap: usize, steps: &[Value]) -> Value {
     let mut outs: Vec<Value> = vec![];
     let one = |t: Option<Value>| match t { Some(t) => json!([t]), None => json!([]) };
     for (i, st) in steps.iter().enumerate() {
         let n = st["n"].as_u64().unwrap() as usize;
         match st["op"].as_str().unwrap() {
-            "next" => outs.push(one(it.next())),
-            "nth" => outs.push(one(it.nth(n))),
+            "next" => outs.push(one(it.next().map(&proj))),
+            "nth" => outs.push(one(it.nth(n).map(&proj))),
             "hint" => { let (lo, hi) = it.size_hint(); outs.push(json!([lo, hi.map(|h| h as i64).unwrap_or(-1)])); }
             fin => {
                 assert!(i + 1 == steps.len(), "final op in the middle");
                 outs.push(match fin {
-                    "rest" => json!(it.take(cap).collect::<Vec<_>>()),
-                    "skip" => json!(it.skip(n).take(cap).collect::<Vec<_>>()),
-                    "step_by" => json!(it.step_by(n).take(cap).collect::<Vec<_>>()),
-                    "last" => one(it.take(cap).last()),
+                    "rest" => json!(it.take(cap).map(&proj).collect::<Vec<_>>()),
+                    "skip" => json!(it.skip(n).take(cap).map(&proj).collect::<Vec<_>>()),
+                    "step_by" => json!(it.step_by(n).take(cap).map(&proj).collect::<Vec<_>>()),
+                    "last" => one(it.take(cap).last().map(&proj)),
                     "count" => json!([it.take(cap).count()]),
                     _ => panic!("harness: unknown op"),
                 });
@@ -40,22 +41,22 @@ fn map_sessions(sm: &SourceMap, how: &str, steps: &[Value], em: &mut Emitter) {
     let nnm = sm.get_name_count() as usize;
     let items: Vec<Value> = (0..ntok).filter_map(|i| sm.get_token(i)).map(|t| tok_json(&t)).collect();
     em.emit("session", json!({"how": how, "kind": "tokens", "items": items, "steps": steps}),
-            guard(|| session(Box::new(sm.tokens().map(|t| tok_json(&t))), ntok + 2, steps)));
+            guard(|| session(sm.tokens(), |t| tok_json(&t), ntok + 2, steps)));
     let items: Vec<Value> = (0..nsrc).filter_map(|i| sm.get_source(i as u32)).map(|s| json!(s)).collect();
     em.emit("session", json!({"how": how, "kind": "sources", "items": items, "steps": steps}),
-            guard(|| session(Box::new(sm.sources().map(|s| json!(s))), nsrc + 2, steps)));
+            guard(|| session(sm.sources(), |s| json!(s), nsrc + 2, steps)));
     let items: Vec<Value> = (0..nnm).filter_map(|i| sm.get_name(i as u32)).map(|s| json!(s)).collect();
     em.emit("session", json!({"how": how, "kind": "names", "items": items, "steps": steps}),
-            guard(|| session(Box::new(sm.names().map(|s| json!(s))), nnm + 2, steps)));
+            guard(|| session(sm.names(), |s| json!(s), nnm + 2, steps)));
     let items: Vec<Value> = (0..nsrc).map(|i| opt_str(sm.get_source_contents(i as u32))).collect();
     em.emit("session", json!({"how": how, "kind": "contents", "items": items, "steps": steps}),
-            guard(|| session(Box::new(sm.source_contents().map(opt_str)), nsrc + 2, steps)));
+            guard(|| session(sm.source_contents(), opt_str, nsrc + 2, steps)));
 }
 fn index_sessions(smi: &SourceMapIndex, how: &str, steps: &[Value], em: &mut Emitter) {
     let n = smi.get_section_count() as usize;
     let items: Vec<Value> = (0..n).filter_map(|i| smi.get_section(i as u32)).map(|s| json!([s.get_offset_line(), s.get_offset_col()])).collect();
     em.emit("session", json!({"how": how, "kind": "sections", "items": items, "steps": steps}),
-            guard(|| session(Box::new(smi.sections().map(|s| json!([s.get_offset_line(), s.get_offset_col()]))), n + 2, steps)));
+            guard(|| session(smi.sections(), |s| json!([s.get_offset_line(), s.get_offset_col()]), n + 2, steps)));
 }
 
 pub fn run(case: &Value, em: &mut Emitter) {
